@@ -21,16 +21,18 @@ def run(pid, tier, work, assumptions):
         return 1 if bad else 0
     v = vlib.Verdict(pid, work)
     mc = storelib.tlc_mc(work, "HybridMC.cfg", module="Hybrid", tag="hmc", timeout=2400)
+    mcl = storelib.tlc_mc(work, "HybridMC_loading.cfg", module="Hybrid", tag="hmcl", timeout=2400)   # with the loading Get
     out = storelib.run_driver(work, "TestVerif_Hybrid", "hybrid", env={"VERIF_N": 1500 if thorough else 150}, timeout=2400)
     tf = os.path.join(out, "hybrid.ndjson")
     res = storelib.validate(work, tf, "hybrid", module="HybridTrace", cfg="HybridTrace.cfg", timeout=3000)
     others = {}
     storelib.report(v, work, pid, tf, res, lambda k, t, l: KF.get(k), others)
-    cov = {"states": mc.distinct, "transitions": mc.generated, "traces_validated_against_impl": res["traces"],
+    cov = {"states": mc.distinct + mcl.distinct, "transitions": mc.generated + mcl.generated, "traces_validated_against_impl": res["traces"],
            "evaluations": res["traces"], "distinct_nontrivial": res["traces"],
            "rule": "one evaluation = one seeded history of Set/SetWithTTL/Get/Delete/clock advances on a hybrid store (simple or loading) with a scripted secondary store (optionally failing), workers running concurrently, every key read again after everything has settled",
            "gets_validated": res["gets"], "demotions_observed": res["demotions"], "events_validated": res["lines"],
-           "model_checking_runs": [{"cfg": "HybridMC.cfg", "states": mc.distinct, "transitions": mc.generated, "wall_s": round(mc.wall, 1)}],
+           "model_checking_runs": [{"cfg": "HybridMC.cfg", "states": mc.distinct, "transitions": mc.generated, "wall_s": round(mc.wall, 1)},
+                                   {"cfg": "HybridMC_loading.cfg", "states": mcl.distinct, "transitions": mcl.generated, "wall_s": round(mcl.wall, 1)}],
            "violations_of_other_properties_seen": others, "exhaustive": True,
            "samples": [x for x in vlib.read_ndjson_head(tf, 40) if x.get("ev") in ("call", "ret", "sec", "handoff", "secdel")][:12],
            "known_findings_seen": {k: c for k, (w_, c) in v.known.items()}}
